@@ -448,7 +448,7 @@ fn session(lines: &[String], tmpdir: &Path, emit: &mut dyn FnMut(String)) {
             }
         }
         if (matches!(t[1], "detach") && ans == "ok") || t[1] == "drop" {
-            teardown_oracle(&mut s, t[1], &ans, cur_pid, cur_external, ph == Ph::Ended, &launched, detached, &pause, &ext_out, &ext_res, ext_pid);
+            teardown_oracle(&mut s, &state_name, t[1], &ans, cur_pid, cur_external, ph == Ph::Ended, &launched, detached, &pause, &ext_out, &ext_res, ext_pid);
         }
         // a generation created on top of a registry left over by a death by signal: what its clean-up pokes depends on
         // hash-map iteration order (disable_all_breakpoints returns at the first address it cannot map): not compared
@@ -460,7 +460,7 @@ fn session(lines: &[String], tmpdir: &Path, emit: &mut dyn FnMut(String)) {
         if cur_external && !detached { std::fs::write(&pause, b"p").unwrap(); }
         let ans = match std::panic::catch_unwind(std::panic::AssertUnwindSafe(move || drop(dd))) { Ok(()) => "ok", Err(_) => "panic" };
         s.hist.push("(implicit drop)".into());
-        teardown_oracle(&mut s, "drop", ans, cur_pid, cur_external, ph == Ph::Ended, &launched, detached, &pause, &ext_out, &ext_res, ext_pid);
+        teardown_oracle(&mut s, "implicit", "drop", ans, cur_pid, cur_external, ph == Ph::Ended, &launched, detached, &pause, &ext_out, &ext_res, ext_pid);
     }
     let _ = reported_end;
     // ---- end of session: the external program's real status, its output; clean up
@@ -532,18 +532,21 @@ fn boundary(p: &Prog, main_pids: &[i32], dr_last: &mut std::collections::HashMap
 
 /// the promised state of the world after `detach` / `drop`
 #[allow(clippy::too_many_arguments)]
-fn teardown_oracle(s: &mut Sess, cmd: &str, ans: &str, cur_pid: i32, cur_external: bool, ended: bool, launched: &[i32], detached_before: bool,
+fn teardown_oracle(s: &mut Sess, pre_state: &str, cmd: &str, ans: &str, cur_pid: i32, cur_external: bool, ended: bool, launched: &[i32], detached_before: bool,
                    pause: &Path, ext_out: &Path, _ext_res: &Path, _ext_pid: i32) {
     if ans == "panic" { s.fail(&format!("{cmd}-panics"), format!("`{cmd}` panicked (process {cur_pid}, {})", if cur_external { "attached" } else { "launched" })); }
     let released_alive = cmd == "detach" || (cmd == "drop" && (cur_external || detached_before));
     // 1. launched programs: nothing may be left behind by a quit (unless the user detached from it on purpose)
     for p in launched {
         if *p == cur_pid && released_alive { continue; }
-        let gone = wait_for(50, || !Path::new(&format!("/proc/{p}")).exists());
+        // gone at once, or (the kernel needs the dying task to be scheduled) a moment later; a zombie counts as left behind
+        let gone = wait_for(1500, || !Path::new(&format!("/proc/{p}")).exists() || proc_status(*p, *p).map(|x| x.0 == 'Z').unwrap_or(true))
+            && !Path::new(&format!("/proc/{p}")).exists();
         if !gone {
             let st = proc_status(*p, *p).map(|x| x.0).unwrap_or('?');
-            let key = if st == 'Z' { "launched-process-left-as-zombie" } else { "launched-process-left-behind" };
-            s.fail(key, format!("after `{cmd}`: launched process {p} still exists, state {st}"));
+            let why = if st == 'Z' { "killed but not collected (zombie)".to_string() } else { format!("state {st}") };
+            let key = if pre_state == "not-started" { "launched-process-left-behind:not-started" } else { "launched-process-left-behind" };
+            s.fail(key, format!("after `{cmd}` in state {pre_state}: launched process {p} still exists, {why}"));
         }
     }
     if cmd == "drop" && detached_before { return; } // examined at the detach
@@ -558,6 +561,8 @@ fn teardown_oracle(s: &mut Sess, cmd: &str, ans: &str, cur_pid: i32, cur_externa
         if real != s.nat.status { s.fail("released-process-real-exit-status-differs", format!("launched {cur_pid} ended with `{real}` after `{cmd}`, native `{}`", s.nat.status)); }
         return;
     }
+    // an aborting program released in the signal stop of its SIGABRT dies by its own second raise: nothing to examine
+    if s.fin == "a" && pre_state.starts_with("signal-stop") { let _ = std::fs::remove_file(pause); return; }
     // 2. attached program: alive, untraced, running (reaches its next pace point), original code, no hardware breakpoints
     if !Path::new(&format!("/proc/{cur_pid}")).exists() { s.fail("attached-process-killed", format!("after `{cmd}` the attached process {cur_pid} is gone")); return; }
     for t in tasks(cur_pid) { if let Some((_, tr)) = proc_status(cur_pid, t) && tr != 0 { s.fail("released-process-still-traced", format!("task {t} of {cur_pid} has TracerPid {tr} after `{cmd}`")); return; } }
